@@ -68,6 +68,9 @@ type scriptCase struct {
 	Deadline bool        `json:"deadline"`
 	Body     string      `json:"body"`            // N | R | O | G<k>
 	Manifest string      `json:"manifest"`        // "" | M (auth client) | m (plain client)
+	UnknownLen bool      `json:"unknown_len"`     // leave Request.ContentLength at 0 ("unknown") although the body is not empty
+	Method   string      `json:"method"`          // HTTP method ("" = PUT)
+	PreAuth  bool        `json:"pre_auth"`        // op T only: the stack is the auth client, the request already carries Authorization (no challenge handling)
 	Data     string      `json:"data"`            // hex
 	BigLen   int         `json:"big_len"`         // >0: data is generated (pattern), oracle only
 	Script   []behaviour `json:"script"`
@@ -135,7 +138,22 @@ func (c *scriptCase) modelLine() string {
 	if d == "" {
 		d = "-"
 	}
-	return fmt.Sprintf("%s %d %d %d %s %d %s %s%s %s %s", c.Op, c.MaxRetry, c.Min, c.Max, joinInts(c.Tbl), c.Dflt, cn, c.Manifest, c.Body, d, sc)
+	// harness-only options (the model does not depend on them)
+	var opts []string
+	if c.UnknownLen {
+		opts = append(opts, "u")
+	}
+	if c.PreAuth {
+		opts = append(opts, "preauth")
+	}
+	if c.Method != "" {
+		opts = append(opts, "method="+c.Method)
+	}
+	o := "-"
+	if len(opts) > 0 {
+		o = strings.Join(opts, ",")
+	}
+	return fmt.Sprintf("%s %d %d %d %s %d %s %s%s %s %s %s", c.Op, c.MaxRetry, c.Min, c.Max, joinInts(c.Tbl), c.Dflt, cn, c.Manifest, c.Body, d, sc, o)
 }
 
 // ---------------------------------------------------------------- scripted server
@@ -285,7 +303,7 @@ func execScript(t *testing.T, c *scriptCase) scriptObs {
 	synctest.Test(t, func(t *testing.T) {
 		srv := &server{start: time.Now(), script: c.Script}
 		var authClient *auth.Client
-		if c.Op == "A" || c.Op == "W" {
+		if c.Op == "A" || c.Op == "W" || c.PreAuth {
 			authClient = &auth.Client{Cache: auth.NewCache(),
 				Credential: auth.StaticCredential("registry.example", auth.Credential{Username: "u", Password: "p"})}
 		}
@@ -353,17 +371,21 @@ func execScript(t *testing.T, c *scriptCase) scriptObs {
 			var req *http.Request
 			var err error
 			url := "http://registry.example/v2/r/blobs/uploads/1"
+			method := c.Method
+			if method == "" {
+				method = http.MethodPut
+			}
 			switch c.Body[0] {
 			case 'N':
-				req, err = http.NewRequestWithContext(ctx, http.MethodPut, url, nil)
+				req, err = http.NewRequestWithContext(ctx, method, url, nil)
 			case 'R':
-				req, err = http.NewRequestWithContext(ctx, http.MethodPut, url, bytes.NewReader(data))
+				req, err = http.NewRequestWithContext(ctx, method, url, bytes.NewReader(data))
 			case 'O':
-				req, err = http.NewRequestWithContext(ctx, http.MethodPut, url, &oneShot{bytes.NewReader(data)})
+				req, err = http.NewRequestWithContext(ctx, method, url, &oneShot{bytes.NewReader(data)})
 				req.ContentLength = int64(len(data))
 			case 'G':
 				k, _ := strconv.Atoi(c.Body[1:])
-				req, err = http.NewRequestWithContext(ctx, http.MethodPut, url, &oneShot{bytes.NewReader(data)})
+				req, err = http.NewRequestWithContext(ctx, method, url, &oneShot{bytes.NewReader(data)})
 				req.ContentLength = int64(len(data))
 				calls := 0
 				req.GetBody = func() (io.ReadCloser, error) {
@@ -376,6 +398,13 @@ func execScript(t *testing.T, c *scriptCase) scriptObs {
 			}
 			if err != nil {
 				panic(err)
+			}
+			if c.UnknownLen {
+				// net/http: a non-nil Body with ContentLength 0 means "unknown length"
+				req.ContentLength = 0
+			}
+			if c.PreAuth {
+				req.Header.Set("Authorization", "Bearer preset")
 			}
 			resp, err := client.Do(req)
 			obs.res = classify(resp, err)
@@ -506,15 +535,25 @@ func scriptCaseRun(t *testing.T, c *scriptCase) {
 			}
 		}
 	}
-	// O5: bodies that cannot be replayed
+	// O5: bodies that cannot be replayed.  Re-sending one is a violation exactly when an
+	// earlier attempt consumed part of it (then the re-send is truncated; O1 reports it
+	// too); a reader nobody has read from may be sent again.
+	consumed := 0
+	firstResend := -1
+	for i, r := range obs.log {
+		if i > 0 && consumed > 0 && firstResend < 0 {
+			firstResend = i
+		}
+		consumed += len(r.got)
+	}
 	switch c.Body[0] {
 	case 'O':
-		if !(c.Manifest == "M") && len(obs.log) > 1 {
-			fail("oneshot-resent", fmt.Sprintf("%d attempts with a one-shot body", len(obs.log)))
+		if c.Manifest != "M" && firstResend > 0 {
+			fail("oneshot-resent", fmt.Sprintf("%d attempts with a one-shot body, attempt %d came after part of it was consumed", len(obs.log), firstResend))
 		}
 	case 'G':
 		k, _ := strconv.Atoi(c.Body[1:])
-		if len(obs.log) > k+1 {
+		if len(obs.log) > k+1 && firstResend > 0 {
 			fail("oneshot-resent", fmt.Sprintf("%d attempts although GetBody works only %d times", len(obs.log), k))
 		}
 	}
@@ -761,7 +800,16 @@ func genScript(r *common.Rand, big bool) *scriptCase {
 			c.BigLen = 65536 + r.Intn(1<<20)
 		}
 	}
-	if (c.Body == "R" || c.Body == "O") && r.Chance(1, 4) {
+	if c.Body != "N" && r.Chance(1, 3) {
+		c.UnknownLen = true
+	}
+	if r.Chance(1, 2) {
+		c.Method = common.Pick(r, []string{"POST", "PATCH", "GET", "DELETE", "HEAD"})
+	}
+	if c.Op == "T" && r.Chance(1, 5) {
+		c.PreAuth = true
+	}
+	if (c.Body == "R" || c.Body == "O") && !c.UnknownLen && !c.PreAuth && c.Method == "" && r.Chance(1, 3) {
 		// manifest push through the Repository: M = auth client, m = plain retrying client
 		c.Manifest = map[string]string{"A": "M", "T": "m", "W": ""}[c.Op]
 	}
@@ -891,6 +939,7 @@ func enumScripts(t *testing.T, maxLen int, allCancel bool) {
 						Script: append([]behaviour(nil), prefix...)}
 					if body != "N" {
 						c.Data = "0102030405"
+						c.UnknownLen = len(prefix)%2 == 0
 					}
 					if !allCancel {
 						scriptCaseRun(t, c)
